@@ -74,6 +74,14 @@ func (s *Sched) Hook(p int) {
 	s.park(tid, p)
 }
 
+// Tid returns the managed thread id of the calling goroutine.
+func (s *Sched) Tid() (int, bool) {
+	s.mu.Lock()
+	defer s.mu.Unlock()
+	tid, ok := s.gids[goid()]
+	return tid, ok
+}
+
 func (s *Sched) park(tid, p int) {
 	s.events <- schedEvent{tid: tid, point: p}
 	<-s.resume[tid]
